@@ -816,6 +816,8 @@ impl FrontendInternal {
         #[cfg(feature = "verif-hooks")]
         crate::verif::hit("fe.before_recv", &[0]);
         let (reply, body, rfds) = self.main_sock.recv_body::<T>()?;
+        #[cfg(feature = "verif-hooks")]
+        crate::verif::hit("fe.received", &[0]);
         if !reply.is_reply_for(hdr) || rfds.is_some() || !body.is_valid() {
             return Err(VhostUserError::InvalidMessage);
         }
@@ -834,6 +836,8 @@ impl FrontendInternal {
         #[cfg(feature = "verif-hooks")]
         crate::verif::hit("fe.before_recv", &[0]);
         let (reply, body, files) = self.main_sock.recv_body::<T>()?;
+        #[cfg(feature = "verif-hooks")]
+        crate::verif::hit("fe.received", &[0]);
         if !reply.is_reply_for(hdr) || !body.is_valid() {
             return Err(VhostUserError::InvalidMessage);
         }
@@ -876,6 +880,8 @@ impl FrontendInternal {
             return Err(VhostUserError::InvalidMessage);
         }
         let (bytes, rbuf) = self.main_sock.recv_data(size)?;
+        #[cfg(feature = "verif-hooks")]
+        crate::verif::hit("fe.received", &[0]);
         if bytes != size {
             return Err(VhostUserError::PartialMessage);
         }
@@ -905,6 +911,8 @@ impl FrontendInternal {
         #[cfg(feature = "verif-hooks")]
         crate::verif::hit("fe.before_recv", &[1]);
         let (reply, body, rfds) = self.main_sock.recv_body::<VhostUserU64>()?;
+        #[cfg(feature = "verif-hooks")]
+        crate::verif::hit("fe.received", &[0]);
         if !reply.is_reply_for(hdr) || rfds.is_some() || !body.is_valid() {
             return Err(VhostUserError::InvalidMessage);
         }
